@@ -748,3 +748,7 @@ def r9(cx):
                          '(`command <this>` interrupted by SIGINT in an interactive shell drops the built-in\'s future) nothing closes it and the '
                          'shell keeps an extra open descriptor' % (how, held), loc=where)
     cx.floor(n, 3, 'descriptors obtained and closed within one async function')
+
+
+# --- explanation addendum (generated catalogue in DESIGN.md reads RS.explanation)
+RS.explanation += ' Added later: the target descriptor is saved before anything is opened (R1d); no descriptor the shell must close is held as a bare number across an await of a cancellable computation (R9, K-RES with yield terminators as cancellation points; three open findings).'
